@@ -169,20 +169,24 @@ def lineMsg (env : Env) (l : Bytes) : Option C05.Msg :=
 /-- the messages a list of complete lines is delivered as -/
 def msgsOf (env : Env) (ls : List Bytes) : List C05.Msg := ls.filterMap (lineMsg env)
 
-/-- what the Irc stub queues in reaction -/
-def reactsOf (env : Env) (z : Bool) (ls : List Bytes) : List Str :=
-  if z then [] else (msgsOf env ls).flatMap env.react
+/-- what the Irc queues in reaction to the messages `ms`, having been fed `fed` before -/
+def reactsFrom (env : Env) (z : Bool) : List C05.Msg → List C05.Msg → List Str
+  | _, [] => []
+  | fed, m :: ms => (if z then [] else env.react fed m) ++ reactsFrom env z (fed ++ [m]) ms
+
+def reactsOf (env : Env) (z : Bool) (fed : List C05.Msg) (ls : List Bytes) : List Str :=
+  reactsFrom env z fed (msgsOf env ls)
 
 theorem msgsOf_append (env : Env) (a b : List Bytes) : msgsOf env (a ++ b) = msgsOf env a ++ msgsOf env b := by
   simp [msgsOf]
 
-theorem feedLines_eq (env : Env) (ls : List Bytes) (w : World) :
+theorem feedLines_eq (env : Env) (hne : NoEscape env) (ls : List Bytes) (w : World) :
     feedLines env ls w =
       { w with fed := w.fed ++ msgsOf env ls,
-               queue := w.queue ++ reactsOf env w.ircZombie ls,
-               queued := w.queued ++ reactsOf env w.ircZombie ls } := by
+               queue := w.queue ++ reactsOf env w.ircZombie w.fed ls,
+               queued := w.queued ++ reactsOf env w.ircZombie w.fed ls } := by
   induction ls generalizing w with
-  | nil => simp [feedLines, msgsOf, reactsOf]
+  | nil => simp [feedLines, msgsOf, reactsOf, reactsFrom]
   | cons l ls ih =>
     unfold feedLines
     cases h : parseMsg env.timeOk (decode l) with
@@ -190,8 +194,8 @@ theorem feedLines_eq (env : Env) (ls : List Bytes) (w : World) :
     | malformed => simp [ih, msgsOf, reactsOf, lineMsg, h]
     | crash e => exact absurd h (parseMsg_no_crash _ _ _)
     | msg m =>
-      simp only [ih, feedMsg]
-      cases hz : w.ircZombie <;> simp [msgsOf, reactsOf, lineMsg, h]
+      simp only [hne.1 w.fed m, ih, feedMsg]
+      simp [msgsOf, reactsOf, reactsFrom, lineMsg, h]
 
 /-! ### the invariant -/
 
@@ -221,6 +225,12 @@ theorem inv_takeAll (env : Env) (w : World) (h : Inv env w) : Inv env (takeAll w
   have hq : (w.taken ++ w.queue) ++ [] = w.queued := by simpa using h.queue
   split <;> exact ⟨hw, hq, h.inbuf, h.fed, h.nocrash⟩
 
+theorem inv_sendTake (env : Env) (w : World) (h : Inv env w) : Inv env (sendTake w) := by
+  unfold sendTake
+  split
+  · exact h
+  · exact inv_takeAll env w h
+
 theorem inv_doSend (env : Env) (w : World) (h : Inv env w) : Inv env (doSend w) := by
   unfold doSend
   split
@@ -232,12 +242,6 @@ theorem inv_doSend (env : Env) (w : World) (h : Inv env w) : Inv env (doSend w) 
 
 theorem inv_reallyDie (env : Env) (w : World) (h : Inv env w) : Inv env (reallyDie w) :=
   ⟨h.wire, h.queue, h.inbuf, h.fed, h.nocrash⟩
-
-theorem inv_sendTake (env : Env) (w : World) (h : Inv env w) : Inv env (sendTake w) := by
-  unfold sendTake
-  split
-  · exact h
-  · exact inv_takeAll env w h
 
 theorem inv_sendFlush (env : Env) (w : World) (h : Inv env w) : Inv env (sendFlush w) := by
   unfold sendFlush
@@ -251,15 +255,29 @@ theorem inv_sendFinish (env : Env) (w : World) (h : Inv env w) : Inv env (sendFi
   · exact inv_reallyDie env w h
   · exact h
 
-theorem inv_sendIfMsgs (env : Env) (w : World) (h : Inv env w) : Inv env (sendIfMsgs w) := by
-  unfold sendIfMsgs
+section
+variable {env : Env} (hne : NoEscape env)
+include hne
+
+omit hne in
+theorem inv_sendPlain (w : World) (h : Inv env w) : Inv env (sendPlain w) := by
+  unfold sendPlain
   split
   · exact h
   · exact inv_sendFinish env _ (inv_sendFlush env _ (inv_sendTake env w h))
 
-theorem inv_readData (env : Env) (b : Bytes) (w : World) (h : Inv env w) : Inv env (readData env b w) := by
+/-- when nothing escapes `takeMsg`, `_sendIfMsgs` is its plain body -/
+theorem sendIfMsgs_eq (w : World) : sendIfMsgs env w = sendPlain w := by
+  unfold sendIfMsgs
+  rw [hne.2 w.queue]
+  split <;> rfl
+
+theorem inv_sendIfMsgs (w : World) (h : Inv env w) : Inv env (sendIfMsgs env w) := by
+  rw [sendIfMsgs_eq hne]; exact inv_sendPlain w h
+
+theorem inv_readData (b : Bytes) (w : World) (h : Inv env w) : Inv env (readData env b w) := by
   unfold readData
-  rw [feedLines_eq]
+  rw [feedLines_eq env hne]
   refine ⟨h.wire, ?_, ?_, ?_, h.nocrash⟩
   · show w.taken ++ (w.queue ++ _) = w.queued ++ _
     rw [← List.append_assoc, h.queue]
@@ -268,66 +286,70 @@ theorem inv_readData (env : Env) (b : Bytes) (w : World) (h : Inv env w) : Inv e
   · show w.fed ++ msgsOf env (splitLF (w.inbuffer ++ b)).1 = msgsOf env (splitLF (w.rx ++ b)).1
     rw [splitLF_append w.rx b, h.inbuf, h.fed, msgsOf_append]
 
-theorem inv_sendAfterRead (env : Env) (w : World) (h : Inv env w) : Inv env (sendAfterRead w) := by
+theorem inv_sendAfterRead (w : World) (h : Inv env w) : Inv env (sendAfterRead env w) := by
   unfold sendAfterRead
   split
   · exact h
   · split
     · exact h
-    · exact inv_sendIfMsgs env w h
+    · exact inv_sendIfMsgs hne w h
 
-theorem inv_setRecv (env : Env) (w : World) (rs : List RecvRes) (h : Inv env w) :
+omit hne in
+theorem inv_setRecv (w : World) (rs : List RecvRes) (h : Inv env w) :
     Inv env { w with recvScript := rs } :=
   ⟨h.wire, h.queue, h.inbuf, h.fed, h.nocrash⟩
 
-theorem inv_read (env : Env) (w : World) (h : Inv env w) : Inv env (read env w) := by
+theorem inv_read (w : World) (h : Inv env w) : Inv env (read env w) := by
   unfold read
   split
-  · exact inv_sendAfterRead env w h
-  · exact inv_handleSocketError env _ _ (inv_setRecv env w _ h)
-  · exact inv_sendAfterRead env _ (inv_readData env _ _ (inv_setRecv env w _ h))
-  · exact inv_sendAfterRead env _ (inv_setRecv env w _ h)
-  · exact inv_handleSocketError env _ _ (inv_setRecv env w _ h)
+  · exact inv_sendAfterRead hne w h
+  · exact inv_handleSocketError env _ _ (inv_setRecv w _ h)
+  · exact inv_sendAfterRead hne _ (inv_readData hne _ _ (inv_setRecv w _ h))
+  · exact inv_sendAfterRead hne _ (inv_setRecv w _ h)
+  · exact inv_handleSocketError env _ _ (inv_setRecv w _ h)
 
-theorem inv_selectRead (env : Env) (w : World) (h : Inv env w) : Inv env (selectRead env w) := by
+theorem inv_selectRead (w : World) (h : Inv env w) : Inv env (selectRead env w) := by
   unfold selectRead
   split
   · exact h
-  · exact inv_read env w h
+  · exact inv_read hne w h
 
-theorem inv_selectSend (env : Env) (w : World) (h : Inv env w) : Inv env (selectSend w) := by
+theorem inv_selectSend (w : World) (h : Inv env w) : Inv env (selectSend env w) := by
   unfold selectSend
   split
   · exact h
   · split
     · exact h
-    · exact inv_sendIfMsgs env w h
+    · exact inv_sendIfMsgs hne w h
 
-theorem inv_select (env : Env) (w : World) (h : Inv env w) : Inv env (select env w) := by
+theorem inv_select (w : World) (h : Inv env w) : Inv env (select env w) := by
   unfold select
   split
   · exact h
-  · exact inv_selectSend env _ (inv_selectRead env w h)
+  · split
+    · exact h
+    · exact inv_selectSend hne _ (inv_selectRead hne w h)
 
-theorem inv_run (env : Env) (w : World) (h : Inv env w) : Inv env (run env w) := by
+theorem inv_run (w : World) (h : Inv env w) : Inv env (run env w) := by
   unfold run
   split
   · exact h
-  · exact inv_select env _ (inv_sendIfMsgs env w h)
+  · exact inv_select hne _ (inv_sendIfMsgs hne w h)
 
-theorem inv_loopCatch (env : Env) (w : World) (h : Inv env w) : Inv env (loopCatch w) := by
+omit hne in
+theorem inv_loopCatch (w : World) (h : Inv env w) : Inv env (loopCatch w) := by
   unfold loopCatch
   split
   · exact ⟨h.wire, h.queue, h.inbuf, h.fed, h.nocrash⟩
   · exact h
 
-theorem inv_loop (env : Env) (w : World) (h : Inv env w) : Inv env (loop env w) := by
+theorem inv_loop (w : World) (h : Inv env w) : Inv env (loop env w) := by
   unfold loop
   split
   · exact h
-  · exact inv_loopCatch env _ (inv_run env w h)
+  · exact inv_loopCatch _ (inv_run hne w h)
 
-theorem inv_step (env : Env) (w : World) (op : Op) (h : Inv env w) : Inv env (step env w op) := by
+theorem inv_step (w : World) (op : Op) (h : Inv env w) : Inv env (step env w op) := by
   cases op with
   | queue s =>
     simp only [step]
@@ -339,12 +361,14 @@ theorem inv_step (env : Env) (w : World) (op : Op) (h : Inv env w) : Inv env (st
   | scriptSend r => exact ⟨h.wire, h.queue, h.inbuf, h.fed, h.nocrash⟩
   | scriptRecv r => exact ⟨h.wire, h.queue, h.inbuf, h.fed, h.nocrash⟩
   | ircDie => exact ⟨h.wire, h.queue, h.inbuf, h.fed, h.nocrash⟩
-  | loop => exact inv_loop env w h
+  | loop => exact inv_loop hne w h
 
-theorem inv_runOps (env : Env) (ops : List Op) (w : World) (h : Inv env w) : Inv env (runOps env w ops) := by
+theorem inv_runOps (ops : List Op) (w : World) (h : Inv env w) : Inv env (runOps env w ops) := by
   induction ops generalizing w with
   | nil => exact h
-  | cons op ops ih => exact ih _ (inv_step env w op h)
+  | cons op ops ih => exact ih _ (inv_step hne w op h)
+
+end
 
 /-! ### chunk lists -/
 
@@ -352,14 +376,19 @@ theorem inv_runOps (env : Env) (ops : List Op) (w : World) (h : Inv env w) : Inv
 def feedChunks (env : Env) (w : World) (cs : List Bytes) : World :=
   cs.foldl (fun w c => readData env c w) w
 
-theorem readData_fed (env : Env) (b : Bytes) (w : World) :
+section
+variable {env : Env} (hne : NoEscape env)
+include hne
+
+theorem readData_fed (b : Bytes) (w : World) :
     (readData env b w).fed = w.fed ++ msgsOf env (splitLF (w.inbuffer ++ b)).1 := by
-  unfold readData; rw [feedLines_eq]
+  unfold readData; rw [feedLines_eq env hne]
 
-theorem readData_inbuffer (env : Env) (b : Bytes) (w : World) :
+theorem readData_inbuffer (b : Bytes) (w : World) :
     (readData env b w).inbuffer = (splitLF (w.inbuffer ++ b)).2 := by
-  unfold readData; rw [feedLines_eq]
+  unfold readData; rw [feedLines_eq env hne]
 
+omit hne in
 theorem splitLF_of_no_lf (b : Bytes) (h : LF ∉ b) : splitLF b = ([], b) := by
   induction b with
   | nil => rfl
@@ -367,19 +396,21 @@ theorem splitLF_of_no_lf (b : Bytes) (h : LF ∉ b) : splitLF b = ([], b) := by
     simp only [List.mem_cons, not_or] at h
     rw [splitLF_cons_ne (fun hc => h.1 hc.symm), ih h.2]
 
-theorem feedChunks_spec (env : Env) (cs : List Bytes) (w : World) (hw : LF ∉ w.inbuffer) :
+theorem feedChunks_spec (cs : List Bytes) (w : World) (hw : LF ∉ w.inbuffer) :
     (feedChunks env w cs).fed = w.fed ++ msgsOf env (splitLF (w.inbuffer ++ cs.flatten)).1 ∧
     (feedChunks env w cs).inbuffer = (splitLF (w.inbuffer ++ cs.flatten)).2 := by
   induction cs generalizing w with
   | nil =>
     simp [feedChunks, splitLF_of_no_lf _ hw, msgsOf]
   | cons c cs ih =>
-    have := ih (readData env c w) (by rw [readData_inbuffer]; exact splitLF_rem_no_lf _)
+    have := ih (readData env c w) (by rw [readData_inbuffer hne]; exact splitLF_rem_no_lf _)
     simp only [feedChunks, List.foldl_cons] at this ⊢
-    rw [this.1, this.2, readData_fed, readData_inbuffer]
+    rw [this.1, this.2, readData_fed hne, readData_inbuffer hne]
     simp only [List.flatten_cons, ← List.append_assoc]
     rw [splitLF_append (w.inbuffer ++ c) cs.flatten]
     simp [msgsOf_append]
+
+end
 
 /-! ### a connection on which nothing goes wrong -/
 
@@ -391,20 +422,27 @@ structure Calm (w : World) : Prop where
   crashed : w.crashed = none
   sendScript : w.sendScript = []
 
+section
+variable {env : Env} (hne : NoEscape env)
+include hne
+
 theorem calm_sendIfMsgs (w : World) (h : Calm w) :
-    Calm (sendIfMsgs w) ∧ (sendIfMsgs w).recvScript = w.recvScript ∧ (sendIfMsgs w).rx = w.rx := by
+    Calm (sendIfMsgs env w) ∧ (sendIfMsgs env w).recvScript = w.recvScript ∧ (sendIfMsgs env w).rx = w.rx := by
   obtain ⟨h1, h2, h3, h4, h5, h6⟩ := h
+  rw [sendIfMsgs_eq hne]
   refine ⟨⟨?_, ?_, ?_, ?_, ?_, ?_⟩, ?_, ?_⟩ <;>
-  · simp only [sendIfMsgs, sendTake, takeAll, sendFlush, sendFinish, doSend, reallyDie, driverDie]
+  · simp only [sendPlain, sendTake, takeAll, sendFlush, sendFinish, doSend, reallyDie, driverDie]
     (repeat' split) <;> simp_all
 
-theorem calm_readData (env : Env) (b : Bytes) (w : World) (h : Calm w) :
+theorem calm_readData (b : Bytes) (w : World) (h : Calm w) :
     Calm (readData env b w) ∧ (readData env b w).recvScript = w.recvScript ∧
       (readData env b w).rx = w.rx ++ b := by
   obtain ⟨h1, h2, h3, h4, h5, h6⟩ := h
   unfold readData
-  rw [feedLines_eq]
+  rw [feedLines_eq env hne]
   exact ⟨⟨h1, h2, h3, h4, h5, h6⟩, rfl, rfl⟩
+
+end
 
 /-- the history "recv() returns `c`, one loop pass" for every chunk -/
 def chunkOps (cs : List Bytes) : List Op := cs.flatMap (fun c => [.scriptRecv (.data c), .loop])
@@ -414,14 +452,14 @@ theorem calm_setRecv (w : World) (rs : List RecvRes) (h : Calm w) : Calm { w wit
 
 theorem read_data_cons (env : Env) (w : World) (b : UInt8) (bs : Bytes) (rs : List RecvRes)
     (h : w.recvScript = .data (b :: bs) :: rs) :
-    read env w = sendAfterRead (readData env (b :: bs) { w with recvScript := rs }) := by
+    read env w = sendAfterRead env (readData env (b :: bs) { w with recvScript := rs }) := by
   unfold read; rw [h]
 
-theorem sendAfterRead_calm (w : World) (h : Calm w) : sendAfterRead w = sendIfMsgs w := by
+theorem sendAfterRead_calm (env : Env) (w : World) (h : Calm w) : sendAfterRead env w = sendIfMsgs env w := by
   unfold sendAfterRead
   simp only [h.crashed, h.ircZombie, Option.isSome_none, Bool.false_eq_true, ↓reduceIte]
 
-theorem selectSend_calm (w : World) (h : Calm w) : selectSend w = sendIfMsgs w := by
+theorem selectSend_calm (env : Env) (w : World) (h : Calm w) : selectSend env w = sendIfMsgs env w := by
   unfold selectSend
   simp only [h.crashed, h.connected, h.zombie, h.ircZombie, Option.isSome_none, Bool.not_true,
     Bool.or_self, Bool.false_eq_true, ↓reduceIte]
@@ -430,7 +468,49 @@ theorem loopCatch_calm (w : World) (h : Calm w) : loopCatch w = w := by
   unfold loopCatch
   simp only [h.crashed, Option.isSome_none, Bool.false_eq_true, ↓reduceIte]
 
-theorem calm_chunk (env : Env) (c : Bytes) (hc : c ≠ []) (w : World) (h : Calm w) (hr : w.recvScript = []) :
+section
+variable {env : Env} (hne : NoEscape env)
+include hne
+
+/-- one chunk: what the loop pass computes, explicitly -/
+theorem loop_chunk_eq (b : UInt8) (bs : Bytes) (w : World) (h : Calm w) (hr : w.recvScript = []) :
+    loop env (step env w (.scriptRecv (.data (b :: bs)))) =
+      sendIfMsgs env (sendIfMsgs env (readData env (b :: bs)
+        { sendIfMsgs env { w with recvScript := [.data (b :: bs)] } with recvScript := [] })) := by
+  have e1 : step env w (.scriptRecv (.data (b :: bs))) = { w with recvScript := [.data (b :: bs)] } := by
+    simp [step, hr]
+  rw [e1]
+  have c1 := calm_setRecv w [.data (b :: bs)] h
+  have r1 : ({ w with recvScript := [.data (b :: bs)] } : World).recvScript = [.data (b :: bs)] := rfl
+  generalize ({ w with recvScript := [.data (b :: bs)] } : World) = w1 at c1 r1 ⊢
+  obtain ⟨c2, r2, -⟩ := calm_sendIfMsgs hne w1 c1
+  have erun : run env w1 = select env (sendIfMsgs env w1) := by
+    unfold run
+    simp only [c1.connected, Bool.not_true, Bool.false_eq_true, ↓reduceIte]
+  generalize sendIfMsgs env w1 = w2 at c2 r2 erun ⊢
+  have eread : read env w2 = sendAfterRead env (readData env (b :: bs) { w2 with recvScript := [] }) :=
+    read_data_cons env w2 b bs [] (r2.trans r1)
+  have c3 := calm_setRecv w2 [] c2
+  generalize ({ w2 with recvScript := [] } : World) = w3 at c3 eread ⊢
+  obtain ⟨c4, -, -⟩ := calm_readData hne (b :: bs) w3 c3
+  generalize readData env (b :: bs) w3 = w4 at c4 eread ⊢
+  rw [sendAfterRead_calm env w4 c4] at eread
+  obtain ⟨c5, -, -⟩ := calm_sendIfMsgs hne w4 c4
+  generalize sendIfMsgs env w4 = w5 at c5 eread ⊢
+  obtain ⟨c6, -, -⟩ := calm_sendIfMsgs hne w5 c5
+  have esel : select env w2 = sendIfMsgs env w5 := by
+    unfold select
+    simp only [c2.crashed, c2.connected, c2.zombie, Option.isSome_none, Bool.not_true, Bool.or_self,
+      Bool.false_eq_true, ↓reduceIte]
+    unfold selectRead
+    rw [r2, r1]
+    simp only [List.cons_ne_nil, ↓reduceIte, eread]
+    exact selectSend_calm env w5 c5
+  unfold loop
+  simp only [c1.removed, Bool.false_eq_true, ↓reduceIte]
+  rw [erun, esel, loopCatch_calm _ c6]
+
+theorem calm_chunk (c : Bytes) (hc : c ≠ []) (w : World) (h : Calm w) (hr : w.recvScript = []) :
     Calm (loop env (step env w (.scriptRecv (.data c)))) ∧
     (loop env (step env w (.scriptRecv (.data c)))).recvScript = [] ∧
     (loop env (step env w (.scriptRecv (.data c)))).rx = w.rx ++ c := by
@@ -438,58 +518,27 @@ theorem calm_chunk (env : Env) (c : Bytes) (hc : c ≠ []) (w : World) (h : Calm
     cases c with
     | nil => exact absurd rfl hc
     | cons b bs => exact ⟨b, bs, rfl⟩
-  -- the scripted state
-  have e1 : step env w (.scriptRecv (.data (b :: bs))) = { w with recvScript := [.data (b :: bs)] } := by
-    simp [step, hr]
-  rw [e1]
+  rw [loop_chunk_eq hne b bs w h hr]
   have c1 := calm_setRecv w [.data (b :: bs)] h
-  have r1 : ({ w with recvScript := [.data (b :: bs)] } : World).recvScript = [.data (b :: bs)] := rfl
-  have x1 : ({ w with recvScript := [.data (b :: bs)] } : World).rx = w.rx := rfl
-  generalize ({ w with recvScript := [.data (b :: bs)] } : World) = w1 at c1 r1 x1 ⊢
-  -- first _sendIfMsgs of run()
-  obtain ⟨c2, r2, x2⟩ := calm_sendIfMsgs w1 c1
-  have erun : run env w1 = select env (sendIfMsgs w1) := by
-    unfold run
-    simp only [c1.connected, Bool.not_true, Bool.false_eq_true, ↓reduceIte]
-  generalize sendIfMsgs w1 = w2 at c2 r2 x2 erun
-  -- _read
-  have eread : read env w2 = sendAfterRead (readData env (b :: bs) { w2 with recvScript := [] }) :=
-    read_data_cons env w2 b bs [] (r2.trans r1)
-  have c3 := calm_setRecv w2 [] c2
-  have x3 : ({ w2 with recvScript := [] } : World).rx = w2.rx := rfl
-  have r3 : ({ w2 with recvScript := [] } : World).recvScript = [] := rfl
-  generalize ({ w2 with recvScript := [] } : World) = w3 at c3 x3 r3 eread
-  obtain ⟨c4, r4, x4⟩ := calm_readData env (b :: bs) w3 c3
-  generalize readData env (b :: bs) w3 = w4 at c4 r4 x4 eread
-  rw [sendAfterRead_calm w4 c4] at eread
-  obtain ⟨c5, r5, x5⟩ := calm_sendIfMsgs w4 c4
-  generalize sendIfMsgs w4 = w5 at c5 r5 x5 eread
-  -- final _sendIfMsgs of _select
-  obtain ⟨c6, r6, x6⟩ := calm_sendIfMsgs w5 c5
-  have esel : select env w2 = sendIfMsgs w5 := by
-    unfold select
-    simp only [c2.connected, c2.zombie, Bool.not_true, Bool.or_self, Bool.false_eq_true, ↓reduceIte]
-    unfold selectRead
-    rw [r2, r1]
-    simp only [List.cons_ne_nil, ↓reduceIte, eread]
-    exact selectSend_calm w5 c5
-  have eloop : loop env w1 = sendIfMsgs w5 := by
-    unfold loop
-    simp only [c1.removed, Bool.false_eq_true, ↓reduceIte]
-    rw [erun, esel, loopCatch_calm _ c6]
-  rw [eloop]
+  obtain ⟨c2, r2, x2⟩ := calm_sendIfMsgs hne _ c1
+  have c3 := calm_setRecv _ [] c2
+  obtain ⟨c4, r4, x4⟩ := calm_readData hne (b :: bs) _ c3
+  obtain ⟨c5, r5, x5⟩ := calm_sendIfMsgs hne _ c4
+  obtain ⟨c6, r6, x6⟩ := calm_sendIfMsgs hne _ c5
   refine ⟨c6, ?_, ?_⟩
-  · rw [r6, r5, r4, r3]
-  · rw [x6, x5, x4, x3, x2, x1]
+  · rw [r6, r5, r4]
+  · rw [x6, x5, x4]
+    show (sendIfMsgs env { w with recvScript := [.data (b :: bs)] }).rx ++ _ = _
+    rw [x2]
 
-theorem calm_chunkOps (env : Env) (cs : List Bytes) (hcs : ∀ c ∈ cs, c ≠ []) (w : World) (h : Calm w)
+theorem calm_chunkOps (cs : List Bytes) (hcs : ∀ c ∈ cs, c ≠ []) (w : World) (h : Calm w)
     (hr : w.recvScript = []) :
     Calm (runOps env w (chunkOps cs)) ∧ (runOps env w (chunkOps cs)).recvScript = [] ∧
     (runOps env w (chunkOps cs)).rx = w.rx ++ cs.flatten := by
   induction cs generalizing w with
   | nil => simp [chunkOps, runOps, h, hr]
   | cons c cs ih =>
-    obtain ⟨k1, k2, k3⟩ := calm_chunk env c (hcs c (by simp)) w h hr
+    obtain ⟨k1, k2, k3⟩ := calm_chunk hne c (hcs c (by simp)) w h hr
     obtain ⟨j1, j2, j3⟩ := ih (fun c' hc' => hcs c' (by simp [hc'])) _ k1 k2
     have e : runOps env w (chunkOps (c :: cs)) =
         runOps env (loop env (step env w (.scriptRecv (.data c)))) (chunkOps cs) := by
@@ -498,31 +547,39 @@ theorem calm_chunkOps (env : Env) (cs : List Bytes) (hcs : ∀ c ∈ cs, c ≠ [
     refine ⟨j1, j2, ?_⟩
     rw [j3, k3]; simp
 
+end
+
 theorem calm_init : Calm init := ⟨rfl, rfl, rfl, rfl, rfl, rfl⟩
 
 /-! ### EAGAIN accounting and draining -/
 
 /-- `k` consecutive calls of `_sendIfMsgs` -/
-def sendN : Nat → World → World
+def sendN (env : Env) : Nat → World → World
   | 0, w => w
-  | k + 1, w => sendN k (sendIfMsgs w)
+  | k + 1, w => sendN env k (sendIfMsgs env w)
 
 theorem append_ne_nil_left {α} {a : List α} (b : List α) (h : a ≠ []) : a ++ b ≠ [] := by
   cases a with
   | nil => exact absurd rfl h
   | cons x xs => simp
 
+section
+variable {env : Env} (hne : NoEscape env)
+include hne
+
 /-- one `_sendIfMsgs` whose `send()` raises EAGAIN while the counter is at most 120 -/
 theorem sendIfMsgs_eagain (w : World) (rs : List SendRes)
     (hc : w.connected = true) (hz : w.zombie = false) (hi : w.ircZombie = false)
+    (hk : w.crashed = none)
     (hob : w.outbuffer ≠ []) (he : w.eagains ≤ 120) (hs : w.sendScript = .error 11 :: rs) :
-    sendIfMsgs w = { w with outbuffer := w.outbuffer ++ utf8 w.queue.flatten,
-                            taken := w.taken ++ w.queue, queue := [],
-                            sendScript := rs, eagains := w.eagains + 1 } := by
-  have hne : w.outbuffer ++ utf8 w.queue.flatten ≠ [] := append_ne_nil_left _ hob
+    sendIfMsgs env w = { w with outbuffer := w.outbuffer ++ utf8 w.queue.flatten,
+                                taken := w.taken ++ w.queue, queue := [],
+                                sendScript := rs, eagains := w.eagains + 1 } := by
+  have hne' : w.outbuffer ++ utf8 w.queue.flatten ≠ [] := append_ne_nil_left _ hob
   have hgt : ¬ (w.eagains > 120) := by omega
-  unfold sendIfMsgs sendTake takeAll sendFlush sendFinish
-  simp only [hc, hz, hi, Bool.not_true, Bool.false_eq_true, ↓reduceIte, hne]
+  rw [sendIfMsgs_eq hne]
+  unfold sendPlain sendTake takeAll sendFlush sendFinish
+  simp only [hc, hz, hi, hk, Bool.not_true, Bool.false_eq_true, ↓reduceIte, hne']
   unfold doSend
   simp only [hs, handleSocketError, ne_eq, not_true_eq_false, hgt, or_self, ↓reduceIte,
     Bool.false_and, Bool.false_eq_true]
@@ -530,34 +587,37 @@ theorem sendIfMsgs_eagain (w : World) (rs : List SendRes)
 /-- one `_sendIfMsgs` whose `send()` raises EAGAIN with the counter above 120: disconnect -/
 theorem sendIfMsgs_eagain_limit (w : World) (rs : List SendRes)
     (hc : w.connected = true) (hz : w.zombie = false) (hi : w.ircZombie = false)
+    (hk : w.crashed = none)
     (hob : w.outbuffer ≠ []) (he : w.eagains > 120) (hs : w.sendScript = .error 11 :: rs) :
-    (sendIfMsgs w).connected = false ∧ (sendIfMsgs w).wire = w.wire := by
-  have hne : w.outbuffer ++ utf8 w.queue.flatten ≠ [] := append_ne_nil_left _ hob
-  unfold sendIfMsgs sendTake takeAll sendFlush sendFinish
-  simp only [hc, hz, hi, Bool.not_true, Bool.false_eq_true, ↓reduceIte, hne]
+    (sendIfMsgs env w).connected = false ∧ (sendIfMsgs env w).wire = w.wire := by
+  have hne' : w.outbuffer ++ utf8 w.queue.flatten ≠ [] := append_ne_nil_left _ hob
+  rw [sendIfMsgs_eq hne]
+  unfold sendPlain sendTake takeAll sendFlush sendFinish
+  simp only [hc, hz, hi, hk, Bool.not_true, Bool.false_eq_true, ↓reduceIte, hne']
   unfold doSend
   simp only [hs, handleSocketError, ne_eq, not_true_eq_false, he, or_true, ↓reduceIte,
     Bool.false_and, Bool.false_eq_true, and_self]
 
 theorem sendN_eagain_burst (k : Nat) (w : World) (rs : List SendRes)
     (hc : w.connected = true) (hz : w.zombie = false) (hi : w.ircZombie = false)
+    (hk : w.crashed = none)
     (hob : w.outbuffer ≠ []) (he : w.eagains + k ≤ 121)
     (hs : w.sendScript = List.replicate k (.error 11) ++ rs) :
-    (sendN k w).connected = true ∧ (sendN k w).wire = w.wire ∧
-    (sendN k w).outbuffer ++ utf8 (sendN k w).queue.flatten = w.outbuffer ++ utf8 w.queue.flatten ∧
-    (sendN k w).eagains = w.eagains + k ∧ (sendN k w).sendScript = rs := by
+    (sendN env k w).connected = true ∧ (sendN env k w).wire = w.wire ∧
+    (sendN env k w).outbuffer ++ utf8 (sendN env k w).queue.flatten = w.outbuffer ++ utf8 w.queue.flatten ∧
+    (sendN env k w).eagains = w.eagains + k ∧ (sendN env k w).sendScript = rs := by
   induction k generalizing w with
   | zero => simp [sendN, hc, hs]
   | succ k ih =>
     have hs' : w.sendScript = .error 11 :: (List.replicate k (.error 11) ++ rs) := by
       rw [hs, List.replicate_succ, List.cons_append]
-    have e := sendIfMsgs_eagain w _ hc hz hi hob (by omega) hs'
+    have e := sendIfMsgs_eagain hne w _ hc hz hi hk hob (by omega) hs'
     simp only [sendN]
     rw [e]
     have := ih { w with outbuffer := w.outbuffer ++ utf8 w.queue.flatten,
                         taken := w.taken ++ w.queue, queue := [],
                         sendScript := List.replicate k (.error 11) ++ rs, eagains := w.eagains + 1 }
-      hc hz hi (append_ne_nil_left _ hob) (by show w.eagains + 1 + k ≤ 121; omega) rfl
+      hc hz hi hk (append_ne_nil_left _ hob) (by show w.eagains + 1 + k ≤ 121; omega) rfl
     obtain ⟨a1, a2, a3, a4, a5⟩ := this
     refine ⟨a1, a2, ?_, ?_, a5⟩
     · rw [a3]; simp [utf8_nil]
@@ -566,34 +626,55 @@ theorem sendN_eagain_burst (k : Nat) (w : World) (rs : List SendRes)
 /-- one `_sendIfMsgs` whose `send()` accepts `n` bytes -/
 theorem sendIfMsgs_sent (w : World) (n : Nat) (rs : List SendRes)
     (hc : w.connected = true) (hz : w.zombie = false) (hi : w.ircZombie = false)
-    (hne : w.outbuffer ++ utf8 w.queue.flatten ≠ []) (hs : w.sendScript = .sent n :: rs) :
-    sendIfMsgs w = { w with outbuffer := (w.outbuffer ++ utf8 w.queue.flatten).drop n,
-                            wire := w.wire ++ (w.outbuffer ++ utf8 w.queue.flatten).take n,
-                            taken := w.taken ++ w.queue, queue := [],
-                            sendScript := rs, eagains := 0 } := by
-  unfold sendIfMsgs sendTake takeAll sendFlush sendFinish
-  simp only [hc, hz, hi, Bool.not_true, Bool.false_eq_true, ↓reduceIte, hne]
+    (hk : w.crashed = none)
+    (hne' : w.outbuffer ++ utf8 w.queue.flatten ≠ []) (hs : w.sendScript = .sent n :: rs) :
+    sendIfMsgs env w = { w with outbuffer := (w.outbuffer ++ utf8 w.queue.flatten).drop n,
+                                wire := w.wire ++ (w.outbuffer ++ utf8 w.queue.flatten).take n,
+                                taken := w.taken ++ w.queue, queue := [],
+                                sendScript := rs, eagains := 0 } := by
+  rw [sendIfMsgs_eq hne]
+  unfold sendPlain sendTake takeAll sendFlush sendFinish
+  simp only [hc, hz, hi, hk, Bool.not_true, Bool.false_eq_true, ↓reduceIte, hne']
   unfold doSend
   simp only [hs, Bool.false_and, Bool.false_eq_true, ↓reduceIte]
 
 /-- one `_sendIfMsgs` with nothing scripted: `send()` accepts everything -/
 theorem sendIfMsgs_unscripted (w : World)
     (hc : w.connected = true) (hz : w.zombie = false) (hi : w.ircZombie = false)
-    (hs : w.sendScript = []) :
-    (sendIfMsgs w).outbuffer = [] ∧ (sendIfMsgs w).queue = [] ∧
-    (sendIfMsgs w).connected = true ∧ (sendIfMsgs w).zombie = false ∧ (sendIfMsgs w).ircZombie = false ∧
-    (sendIfMsgs w).sendScript = [] := by
-  refine ⟨?_, ?_, ?_, ?_, ?_, ?_⟩ <;>
-  · simp only [sendIfMsgs, sendTake, takeAll, sendFlush, sendFinish, doSend, reallyDie, driverDie]
+    (hk : w.crashed = none) (hs : w.sendScript = []) :
+    (sendIfMsgs env w).outbuffer = [] ∧ (sendIfMsgs env w).queue = [] ∧
+    (sendIfMsgs env w).connected = true ∧ (sendIfMsgs env w).zombie = false ∧
+    (sendIfMsgs env w).ircZombie = false ∧ (sendIfMsgs env w).crashed = none ∧
+    (sendIfMsgs env w).sendScript = [] := by
+  rw [sendIfMsgs_eq hne]
+  refine ⟨?_, ?_, ?_, ?_, ?_, ?_, ?_⟩ <;>
+  · simp only [sendPlain, sendTake, takeAll, sendFlush, sendFinish, doSend, reallyDie, driverDie]
     (repeat' split) <;> simp_all
+
+end
 
 /-- a script of successful sends of at least one byte each -/
 def Positive (script : List SendRes) : Prop := ∀ r ∈ script, ∃ n, r = .sent n ∧ 0 < n
 
+section
+variable {env : Env} (hne : NoEscape env)
+include hne
+
+theorem sendIfMsgs_idle (w : World)
+    (hc : w.connected = true) (hz : w.zombie = false) (hi : w.ircZombie = false)
+    (hk : w.crashed = none) (hq : w.queue = []) (hob : w.outbuffer = []) :
+    sendIfMsgs env w = w := by
+  rw [sendIfMsgs_eq hne]
+  obtain ⟨c, z, ea, ob, ib, ra, sc, rm, cr, q, iz, fd, ss, rsn, wi, qd, tk, rx⟩ := w
+  simp only at hc hz hi hq hob hk
+  subst hc hz hi hq hob hk
+  simp [sendPlain, sendTake, takeAll, sendFlush, sendFinish, utf8_nil]
+
 theorem sendN_drains_aux (k : Nat) (w : World)
     (hc : w.connected = true) (hz : w.zombie = false) (hi : w.ircZombie = false)
+    (hk' : w.crashed = none)
     (hq : w.queue = []) (hp : Positive w.sendScript) (hk : w.outbuffer.length ≤ k) :
-    (sendN k w).outbuffer = [] ∧ (sendN k w).queue = [] ∧ (sendN k w).connected = true := by
+    (sendN env k w).outbuffer = [] ∧ (sendN env k w).queue = [] ∧ (sendN env k w).connected = true := by
   induction k generalizing w with
   | zero =>
     simp only [sendN]
@@ -601,23 +682,17 @@ theorem sendN_drains_aux (k : Nat) (w : World)
   | succ k ih =>
     simp only [sendN]
     by_cases hob : w.outbuffer = []
-    · -- nothing to send: the state does not change any more
-      have e : sendIfMsgs w = w := by
-        obtain ⟨c, z, ea, ob, ib, ra, sc, rm, cr, q, iz, fd, ss, rsn, wi, qd, tk, rx⟩ := w
-        simp only at hc hz hi hq hob
-        subst hc hz hi hq hob
-        simp [sendIfMsgs, sendTake, takeAll, sendFlush, sendFinish, utf8_nil]
-      rw [e]
-      exact ih w hc hz hi hq hp (by rw [hob]; simp)
-    · have hne : w.outbuffer ++ utf8 w.queue.flatten ≠ [] := append_ne_nil_left _ hob
+    · rw [sendIfMsgs_idle hne w hc hz hi hk' hq hob]
+      exact ih w hc hz hi hk' hq hp (by rw [hob]; simp)
+    · have hne' : w.outbuffer ++ utf8 w.queue.flatten ≠ [] := append_ne_nil_left _ hob
       cases hs : w.sendScript with
       | nil =>
-        obtain ⟨a1, a2, a3, a4, a5, a6⟩ := sendIfMsgs_unscripted w hc hz hi hs
-        exact ih _ a3 a4 a5 a2 (by rw [a6]; intro r hr; cases hr) (by rw [a1]; simp)
+        obtain ⟨a1, a2, a3, a4, a5, a6, a7⟩ := sendIfMsgs_unscripted hne w hc hz hi hk' hs
+        exact ih _ a3 a4 a5 a6 a2 (by rw [a7]; intro r hr; cases hr) (by rw [a1]; simp)
       | cons r rs =>
         obtain ⟨n, rfl, hn⟩ := hp r (by rw [hs]; simp)
-        rw [sendIfMsgs_sent w n rs hc hz hi hne hs]
-        refine ih _ hc hz hi rfl (fun r hr => hp r (by rw [hs]; simp [hr])) ?_
+        rw [sendIfMsgs_sent hne w n rs hc hz hi hk' hne' hs]
+        refine ih _ hc hz hi hk' rfl (fun r hr => hp r (by rw [hs]; simp [hr])) ?_
         show ((w.outbuffer ++ utf8 w.queue.flatten).drop n).length ≤ k
         have : w.outbuffer.length ≠ 0 := by
           intro h0; exact hob (List.eq_nil_of_length_eq_zero h0)
@@ -626,30 +701,38 @@ theorem sendN_drains_aux (k : Nat) (w : World)
 
 theorem sendIfMsgs_nothing (w : World)
     (hc : w.connected = true) (hz : w.zombie = false) (hi : w.ircZombie = false)
+    (hk : w.crashed = none)
     (hnil : w.outbuffer ++ utf8 w.queue.flatten = []) :
-    sendIfMsgs w = { w with outbuffer := w.outbuffer ++ utf8 w.queue.flatten,
-                            taken := w.taken ++ w.queue, queue := [] } := by
-  unfold sendIfMsgs sendTake takeAll sendFlush sendFinish
-  simp only [hc, hz, hi, hnil, Bool.not_true, Bool.false_eq_true, ↓reduceIte, Bool.false_and]
+    sendIfMsgs env w = { w with outbuffer := w.outbuffer ++ utf8 w.queue.flatten,
+                                taken := w.taken ++ w.queue, queue := [] } := by
+  rw [sendIfMsgs_eq hne]
+  unfold sendPlain sendTake takeAll sendFlush sendFinish
+  simp only [hc, hz, hi, hk, hnil, Bool.not_true, Bool.false_eq_true, ↓reduceIte,
+    Bool.false_and]
 
 theorem sendN_drains (k : Nat) (w : World)
     (hc : w.connected = true) (hz : w.zombie = false) (hi : w.ircZombie = false)
+    (hk' : w.crashed = none)
     (hp : Positive w.sendScript) (hk : (w.outbuffer ++ utf8 w.queue.flatten).length ≤ k) :
-    (sendN (k + 1) w).outbuffer = [] ∧ (sendN (k + 1) w).queue = [] ∧ (sendN (k + 1) w).connected = true := by
+    (sendN env (k + 1) w).outbuffer = [] ∧ (sendN env (k + 1) w).queue = [] ∧
+    (sendN env (k + 1) w).connected = true := by
   simp only [sendN]
-  by_cases hne : w.outbuffer ++ utf8 w.queue.flatten = []
-  · rw [sendIfMsgs_nothing w hc hz hi hne]
-    exact sendN_drains_aux k _ hc hz hi rfl hp (by show (w.outbuffer ++ utf8 w.queue.flatten).length ≤ k; exact hk)
+  by_cases hne' : w.outbuffer ++ utf8 w.queue.flatten = []
+  · rw [sendIfMsgs_nothing hne w hc hz hi hk' hne']
+    exact sendN_drains_aux hne k _ hc hz hi hk' rfl hp
+      (by show (w.outbuffer ++ utf8 w.queue.flatten).length ≤ k; exact hk)
   · cases hs : w.sendScript with
     | nil =>
-      obtain ⟨a1, a2, a3, a4, a5, a6⟩ := sendIfMsgs_unscripted w hc hz hi hs
-      exact sendN_drains_aux k _ a3 a4 a5 a2 (by rw [a6]; intro r hr; cases hr) (by rw [a1]; simp)
+      obtain ⟨a1, a2, a3, a4, a5, a6, a7⟩ := sendIfMsgs_unscripted hne w hc hz hi hk' hs
+      exact sendN_drains_aux hne k _ a3 a4 a5 a6 a2 (by rw [a7]; intro r hr; cases hr) (by rw [a1]; simp)
     | cons r rs =>
       obtain ⟨n, rfl, hn⟩ := hp r (by rw [hs]; simp)
-      rw [sendIfMsgs_sent w n rs hc hz hi hne hs]
-      refine sendN_drains_aux k _ hc hz hi rfl (fun r hr => hp r (by rw [hs]; simp [hr])) ?_
+      rw [sendIfMsgs_sent hne w n rs hc hz hi hk' hne' hs]
+      refine sendN_drains_aux hne k _ hc hz hi hk' rfl (fun r hr => hp r (by rw [hs]; simp [hr])) ?_
       show ((w.outbuffer ++ utf8 w.queue.flatten).drop n).length ≤ k
       rw [List.length_drop]; omega
+
+end
 
 /-! ### when no `send()` outcome is scripted (every `send()` accepts the whole buffer) the
 out-buffer is empty between any two operations -/
@@ -658,55 +741,60 @@ structure Flushed (w : World) : Prop where
   script : w.sendScript = []
   buffer : w.outbuffer = []
 
-theorem flushed_sendIfMsgs (w : World) (h : Flushed w) : Flushed (sendIfMsgs w) := by
-  obtain ⟨h1, h2⟩ := h
-  refine ⟨?_, ?_⟩ <;>
-  · simp only [sendIfMsgs, sendTake, takeAll, sendFlush, sendFinish, doSend, reallyDie, driverDie]
-    (repeat' split) <;> simp_all
-
 theorem flushed_handleSocketError (e : Option Nat) (w : World) (h : Flushed w) :
     Flushed (handleSocketError e w) := by
   unfold handleSocketError
   split <;> exact ⟨h.script, h.buffer⟩
 
-theorem flushed_readData (env : Env) (b : Bytes) (w : World) (h : Flushed w) : Flushed (readData env b w) := by
-  unfold readData; rw [feedLines_eq]; exact ⟨h.script, h.buffer⟩
+theorem flushed_setRecv (w : World) (rs : List RecvRes) (h : Flushed w) : Flushed { w with recvScript := rs } :=
+  ⟨h.script, h.buffer⟩
 
-theorem flushed_sendAfterRead (w : World) (h : Flushed w) : Flushed (sendAfterRead w) := by
+section
+variable {env : Env} (hne : NoEscape env)
+include hne
+
+theorem flushed_sendIfMsgs (w : World) (h : Flushed w) : Flushed (sendIfMsgs env w) := by
+  obtain ⟨h1, h2⟩ := h
+  rw [sendIfMsgs_eq hne]
+  refine ⟨?_, ?_⟩ <;>
+  · simp only [sendPlain, sendTake, takeAll, sendFlush, sendFinish, doSend, reallyDie, driverDie]
+    (repeat' split) <;> simp_all
+
+theorem flushed_readData (b : Bytes) (w : World) (h : Flushed w) : Flushed (readData env b w) := by
+  unfold readData; rw [feedLines_eq env hne]; exact ⟨h.script, h.buffer⟩
+
+theorem flushed_sendAfterRead (w : World) (h : Flushed w) : Flushed (sendAfterRead env w) := by
   unfold sendAfterRead
   split
   · exact h
   · split
     · exact h
-    · exact flushed_sendIfMsgs w h
+    · exact flushed_sendIfMsgs hne w h
 
-theorem flushed_setRecv (w : World) (rs : List RecvRes) (h : Flushed w) : Flushed { w with recvScript := rs } :=
-  ⟨h.script, h.buffer⟩
-
-theorem flushed_read (env : Env) (w : World) (h : Flushed w) : Flushed (read env w) := by
+theorem flushed_read (w : World) (h : Flushed w) : Flushed (read env w) := by
   unfold read
   split
-  · exact flushed_sendAfterRead w h
+  · exact flushed_sendAfterRead hne w h
   · exact flushed_handleSocketError _ _ (flushed_setRecv w _ h)
-  · exact flushed_sendAfterRead _ (flushed_readData env _ _ (flushed_setRecv w _ h))
-  · exact flushed_sendAfterRead _ (flushed_setRecv w _ h)
+  · exact flushed_sendAfterRead hne _ (flushed_readData hne _ _ (flushed_setRecv w _ h))
+  · exact flushed_sendAfterRead hne _ (flushed_setRecv w _ h)
   · exact flushed_handleSocketError _ _ (flushed_setRecv w _ h)
 
-theorem flushed_selectRead (env : Env) (w : World) (h : Flushed w) : Flushed (selectRead env w) := by
+theorem flushed_selectRead (w : World) (h : Flushed w) : Flushed (selectRead env w) := by
   unfold selectRead
   split
   · exact h
-  · exact flushed_read env w h
+  · exact flushed_read hne w h
 
-theorem flushed_selectSend (w : World) (h : Flushed w) : Flushed (selectSend w) := by
+theorem flushed_selectSend (w : World) (h : Flushed w) : Flushed (selectSend env w) := by
   unfold selectSend
   split
   · exact h
   · split
     · exact h
-    · exact flushed_sendIfMsgs w h
+    · exact flushed_sendIfMsgs hne w h
 
-theorem flushed_loop (env : Env) (w : World) (h : Flushed w) : Flushed (loop env w) := by
+theorem flushed_loop (w : World) (h : Flushed w) : Flushed (loop env w) := by
   unfold loop
   split
   · exact h
@@ -716,16 +804,21 @@ theorem flushed_loop (env : Env) (w : World) (h : Flushed w) : Flushed (loop env
       · exact h
       · unfold select
         split
-        · exact flushed_sendIfMsgs w h
-        · exact flushed_selectSend _ (flushed_selectRead env _ (flushed_sendIfMsgs w h))
+        · exact flushed_sendIfMsgs hne w h
+        · split
+          · exact flushed_sendIfMsgs hne w h
+          · exact flushed_selectSend hne _ (flushed_selectRead hne _ (flushed_sendIfMsgs hne w h))
     unfold loopCatch
     split
     · exact ⟨h1.script, h1.buffer⟩
     · exact h1
 
+end
+
 def scriptsNoSend (ops : List Op) : Prop := ∀ op ∈ ops, ∀ r, op ≠ .scriptSend r
 
-theorem flushed_runOps (env : Env) (ops : List Op) (w : World) (h : Flushed w) (hn : scriptsNoSend ops) :
+theorem flushed_runOps {env : Env} (hne : NoEscape env) (ops : List Op) (w : World) (h : Flushed w)
+    (hn : scriptsNoSend ops) :
     Flushed (runOps env w ops) := by
   induction ops generalizing w with
   | nil => exact h
@@ -741,6 +834,6 @@ theorem flushed_runOps (env : Env) (ops : List Op) (w : World) (h : Flushed w) (
     | scriptSend r => exact absurd rfl (hn (.scriptSend r) (by simp) r)
     | scriptRecv r => exact ⟨h.script, h.buffer⟩
     | ircDie => exact ⟨h.script, h.buffer⟩
-    | loop => exact flushed_loop env w h
+    | loop => exact flushed_loop hne w h
 
 end C11
